@@ -417,7 +417,8 @@ example : WellKeyedHist (({} : Reg), []) [.reg ⟨[dB], []⟩, .reg ⟨[dA, dA']
 
 /-- states reachable by the replay machine of one registry used from any number of threads (each
     `register` / `unregister` one critical section under the write lock, each `gather` one under the
-    read lock), for any interleaving -/
+    read lock; an `unregister` may first look its collector up under the read lock and end there when
+    it is not registered - `unregister_precheck_accepted`), for any interleaving -/
 inductive RReach (colls : List Coll) (prog : List (List String)) : RM.St → Prop
   | init : RReach colls prog (RM.init colls prog)
   | step {s s' it} : RReach colls prog s → RM.item s it = .ok s' → RReach colls prog s'
@@ -426,8 +427,12 @@ inductive RReach (colls : List Coll) (prog : List (List String)) : RM.St → Pro
     model (`Reg.register` / `Reg.unregister` / `Reg.gather`, to which `register_ok_iff`,
     `register_fail_noop` and `admission_exact` apply) yields when the committed calls are executed one
     at a time in commit order, and every call returned what the model returns at its place. Each call
-    commits at its lock acquisition - a step of the call itself -, so the order is consistent with real
-    time: calls racing on one name are admitted exactly as if they had come one after the other. -/
+    commits at a lock acquisition - a step of the call itself: its write lock (`register`,
+    `unregister`), its read lock (`gather`; a pre-checked `unregister` whose collector is not registered:
+    a refused unregister changes nothing, `registry_changes_only_under_write_lock`), or the write lock
+    that follows a pre-check that found the collector, where it is looked up AGAIN -, so the order is
+    consistent with real time: calls racing on one name are admitted exactly as if they had come one
+    after the other. -/
 theorem registry_linearizable {colls : List Coll} {prog : List (List String)} {s : RM.St}
     (h : RReach colls prog s) : s.colls = colls ∧ specRunR colls {} s.lin = some s.reg := by
   induction h with
@@ -514,5 +519,136 @@ theorem registry_real_time_order_uncommitted {s s' : RM.St} (h' : RRun s s')
     {p q : Nat} {x y : RM.RLin} (hx : s'.lin[p]? = some x) (hy : s'.lin[q]? = some y)
     (hxt : x.tid = t ∧ x.idx = i) (hyt : y.tid = t' ∧ y.idx = i') : p < q :=
   rRun_real_time h' hth hret hno hx hy hxt hyt
+
+/-! ### the pre-checked unregister: a read-locked lookup before the write-locked section -/
+
+/-- **registry_changes_only_under_write_lock** — an accepted event that is not a write-lock
+    acquisition leaves the registry exactly as it is. In particular the read lock of a pre-checked
+    `unregister` - which COMMITS the unregister when the collector is not registered - changes nothing:
+    what it commits is a refused unregister (`unregister_fail_noop`). -/
+theorem registry_changes_only_under_write_lock {s s' : RM.St} {e : Conc.Ev} (h : RM.step s e = .ok s')
+    (hk : e.k ≠ "X") : s'.reg = s.reg :=
+  rStep_reg_unchanged h hk
+
+/-- **unregister_precheck_commit_is_noop** — the pre-check `RM.unregFails` under the read lock is the
+    specification's own answer (`true` iff `specApply … (.unregister i)` on the current registry does
+    not answer "ok"), and whenever it is `true` performing that unregister returns the registry
+    unchanged - so committing it under the READ lock is sound. -/
+theorem unregister_precheck_commit_is_noop (colls : List Coll) (r : Reg) (i : Nat) :
+    (RM.unregFails colls r i = true ↔ (RM.specApply colls r (.unregister i)).2 ≠ "ok") ∧
+    (RM.unregFails colls r i = true → (RM.specApply colls r (.unregister i)).1 = r) :=
+  ⟨unregFails_iff colls r i, unregFails_noop colls r i⟩
+
+/-- the collector of the example runs, the registry holding it, and the registry after its removal -/
+def cA : Coll := ⟨[dA], []⟩
+def rA : Reg := (({} : Reg).register cA).1
+def rB : Reg := (rA.unregister cA).1
+
+/-- closed facts about the model on these: `cA` is admitted to the empty registry, cannot be
+    unregistered from it, can be unregistered from `rA`, and not a second time -/
+private theorem cA_facts : isOk (({} : Reg).register cA).2 = true ∧ isErr (({} : Reg).unregister cA).2 .msg = true ∧
+    isOk (rA.unregister cA).2 = true ∧ isErr (rB.unregister cA).2 .msg = true ∧ rB.collectors.isEmpty = true := by
+  decide +kernel
+
+private theorem isOk_eq {x : Except RErr Unit} (h : isOk x = true) : x = .ok () := by
+  cases x with
+  | ok u => rfl
+  | error e => simp [isOk] at h
+
+private theorem isErr_eq {x : Except RErr Unit} {e : RErr} (h : isErr x e = true) : x = .error e := by
+  cases x with
+  | ok u => simp [isErr] at h
+  | error e' =>
+    simp only [isErr] at h
+    cases e <;> cases e' <;> first | rfl | exact absurd h (by decide)
+
+/-- the specification on the example: register / unregister of collector 0 over `{}`, `rA`, `rB` -/
+private theorem specApply_reg_cA : RM.specApply [cA] {} (.register 0) = (rA, "ok") := by
+  have : ({} : Reg).register cA = (rA, .ok ()) := Prod.ext rfl (isOk_eq cA_facts.1)
+  simp [RM.specApply, this]
+private theorem specApply_unreg_empty : RM.specApply [cA] {} (.unregister 0) = ({}, "err:Msg") := by
+  have h := isErr_eq cA_facts.2.1
+  have : ({} : Reg).unregister cA = ({}, .error .msg) := Prod.ext (unregister_fail_noop _ _ _ h) h
+  simp [RM.specApply, this, RM.showErr]
+private theorem specApply_unreg_rA : RM.specApply [cA] rA (.unregister 0) = (rB, "ok") := by
+  have : rA.unregister cA = (rB, .ok ()) := Prod.ext rfl (isOk_eq cA_facts.2.2.1)
+  simp [RM.specApply, this]
+private theorem specApply_unreg_rB : RM.specApply [cA] rB (.unregister 0) = (rB, "err:Msg") := by
+  have h := isErr_eq cA_facts.2.2.2.1
+  have : rB.unregister cA = (rB, .error .msg) := Prod.ext (unregister_fail_noop _ _ _ h) h
+  simp [RM.specApply, this, RM.showErr]
+/-- the pre-check on the example: fails on `{}` and `rB`, finds the collector in `rA` -/
+private theorem unregFails_empty : RM.unregFails [cA] {} 0 = true := by
+  rw [unregFails_iff, specApply_unreg_empty]; decide
+private theorem unregFails_rA : RM.unregFails [cA] rA 0 = false := by
+  have := unregFails_iff [cA] rA 0
+  rw [specApply_unreg_rA] at this
+  simpa using this
+private theorem unregFails_rB : RM.unregFails [cA] rB 0 = true := by
+  rw [unregFails_iff, specApply_unreg_rB]; decide
+
+open Prom.Conc in
+/-- **unregister_precheck_accepted** — the machine accepts an `unregister` that first looks its
+    collector up under the READ lock, and both outcomes of that lookup are reachable (collectors
+    `[cA]`; the traces are in `Lemmas/C06RealTime.lean`):
+    (1) `unregAbsentTrace`: the collector is not registered; the call commits `.unregister 0` with
+        result "err:Msg" at its read lock, completes at the read unlock and returns "err:Msg" - the
+        whole run contains no write lock; the program is finished (`allDone`), the lock is free, the
+        log is that one entry, the registry is the empty one it started as;
+    (2) `unregPresentTrace`: the collector is registered; after the read-locked section (the first 7
+        items) NOTHING has been committed for the unregister (the log is the `register` alone, the
+        registry still `rA`) and the thread expects the write lock (`unrNeedW`); the write-locked section
+        then commits `.unregister 0` with result "ok", the call returns "ok", the collector is gone;
+    (3) `unregGapTrace`: as (2), but another thread's (pre-checked, successful) `unregister` of the same
+        collector runs between thread 0's read-locked lookup and its write-locked section: thread 0's
+        unregister commits AFTER it, with result "err:Msg", and returns "err:Msg".
+    All three end states are `RReach`able, so `registry_linearizable`, `registry_real_time_order`,
+    `registry_log_invariant` … apply to them. -/
+theorem unregister_precheck_accepted :
+    (∃ s, runItems RM.item (RM.init [cA] [["unreg:0"]]) unregAbsentTrace 0 = .ok s ∧
+      RReach [cA] [["unreg:0"]] s ∧ allDone s.ths = true ∧
+      s.lin = [⟨0, 0, .unregister 0, "err:Msg"⟩] ∧ s.reg = {} ∧ s.lockW = none ∧ s.lockR = []) ∧
+    (∃ s1 s, runItems RM.item (RM.init [cA] [["reg:0", "unreg:0"]]) (unregPresentTrace.take 7) 0 = .ok s1 ∧
+      s1.lin = [⟨0, 0, .register 0, "ok"⟩] ∧ s1.reg = rA ∧
+      s1.ths.map (·.pc) = [some (.unrNeedW 0)] ∧ s1.lockW = none ∧ s1.lockR = [] ∧
+      runItems RM.item (RM.init [cA] [["reg:0", "unreg:0"]]) unregPresentTrace 0 = .ok s ∧
+      RReach [cA] [["reg:0", "unreg:0"]] s ∧ allDone s.ths = true ∧
+      s.lin = [⟨0, 0, .register 0, "ok"⟩, ⟨0, 1, .unregister 0, "ok"⟩] ∧ s.reg = rB ∧
+      s.reg.collectors.isEmpty = true ∧ s.lockW = none ∧ s.lockR = []) ∧
+    (∃ s, runItems RM.item (RM.init [cA] [["reg:0", "unreg:0"], ["unreg:0"]]) unregGapTrace 0 = .ok s ∧
+      RReach [cA] [["reg:0", "unreg:0"], ["unreg:0"]] s ∧ allDone s.ths = true ∧
+      s.lin = [⟨0, 0, .register 0, "ok"⟩, ⟨1, 0, .unregister 0, "ok"⟩, ⟨0, 1, .unregister 0, "err:Msg"⟩] ∧
+      s.reg = rB ∧ s.lockW = none ∧ s.lockR = []) := by
+  have reach : ∀ {prog tr s}, runItems RM.item (RM.init [cA] prog) tr 0 = .ok s → RReach [cA] prog s :=
+    fun hr => rReach_iff_rRun.2 (runItems_rRun hr)
+  refine ⟨?_, ?_, ?_⟩
+  · have h : ∃ s, runItems RM.item (RM.init [cA] [["unreg:0"]]) unregAbsentTrace 0 = .ok s ∧
+        allDone s.ths = true ∧
+        s.lin = [⟨0, 0, .unregister 0, "err:Msg"⟩] ∧ s.reg = {} ∧ s.lockW = none ∧ s.lockR = [] := by
+      simp [runItems, unregAbsentTrace, RM.init, RM.item, RM.step, RM.rEff, Conc.guard, openCall, closeCall, allDone,
+        repr_0, parseOp_unreg_0, unregFails_empty, specApply_unreg_empty]
+    obtain ⟨s, hr, h1⟩ := h
+    exact ⟨s, hr, reach hr, h1⟩
+  · have h : ∃ s1 s, runItems RM.item (RM.init [cA] [["reg:0", "unreg:0"]]) (unregPresentTrace.take 7) 0 = .ok s1 ∧
+        s1.lin = [⟨0, 0, .register 0, "ok"⟩] ∧ s1.reg = rA ∧
+        s1.ths.map (·.pc) = [some (.unrNeedW 0)] ∧ s1.lockW = none ∧ s1.lockR = [] ∧
+        runItems RM.item (RM.init [cA] [["reg:0", "unreg:0"]]) unregPresentTrace 0 = .ok s ∧
+        allDone s.ths = true ∧
+        s.lin = [⟨0, 0, .register 0, "ok"⟩, ⟨0, 1, .unregister 0, "ok"⟩] ∧ s.reg = rB ∧
+        s.reg.collectors.isEmpty = true ∧ s.lockW = none ∧ s.lockR = [] := by
+      simp [runItems, unregPresentTrace, RM.init, RM.item, RM.step, RM.rEff, Conc.guard, openCall, closeCall, allDone,
+        repr_0, repr_1, parseOp_unreg_0, parseOp_reg_0, unregFails_rA, specApply_reg_cA, specApply_unreg_rA]
+      exact List.isEmpty_iff.1 cA_facts.2.2.2.2
+    obtain ⟨s1, s, h1, h2, h3, h4, h5, h6, hr, h7⟩ := h
+    exact ⟨s1, s, h1, h2, h3, h4, h5, h6, hr, reach hr, h7⟩
+  · have h : ∃ s, runItems RM.item (RM.init [cA] [["reg:0", "unreg:0"], ["unreg:0"]]) unregGapTrace 0 = .ok s ∧
+        allDone s.ths = true ∧
+        s.lin = [⟨0, 0, .register 0, "ok"⟩, ⟨1, 0, .unregister 0, "ok"⟩, ⟨0, 1, .unregister 0, "err:Msg"⟩] ∧
+        s.reg = rB ∧ s.lockW = none ∧ s.lockR = [] := by
+      simp [runItems, unregGapTrace, RM.init, RM.item, RM.step, RM.rEff, Conc.guard, openCall, closeCall, allDone,
+        repr_0, repr_1, parseOp_unreg_0, parseOp_reg_0, unregFails_rA, specApply_reg_cA, specApply_unreg_rA,
+        specApply_unreg_rB]
+    obtain ⟨s, hr, h1⟩ := h
+    exact ⟨s, hr, reach hr, h1⟩
 
 end Prom.C06
